@@ -14,8 +14,8 @@ tied to the real code by their own differential checks:
 * `debversion::Version` — `FromStr` / `Display`: `Version.parse` / `Version.display`
   (Model/RelAccess.lean; harness op `rel.version`).
 
-Here the assumption is DISCHARGED for these two: `relationsCodec`, `versionCodec` are concrete
-`LeafCodec`s in the representation the E column uses (a value of an external codec is its canonical
+Here the assumption is DISCHARGED for these two: `Derive.relationsCodec`, `Derive.versionCodec`
+(Model/DeriveCodecs.lean) are concrete `LeafCodec`s in the representation the E column uses (a value of an external codec is its canonical
 printed text, `Val.ext`; `de t = ok (ext (print (read t)))`, `ser (ext c) = c`), and
 `CodecOK relationsCodec`, `CodecOK versionCodec` are theorems, for ALL texts (not only good ones):
 
@@ -37,26 +37,8 @@ open Deb822Verif.Props.C20
 
 /-! ## the two codecs -/
 
-/-- lossy `Relations`: `FromStr` then `Display` (the value is kept as its printed text, like every
-    value of an external codec); the error text is the model's (approximate where Rust prints `{:?}`) -/
-def relationsCodec : LeafCodec where
-  ser := extCodec.ser
-  de := fun t =>
-    match Rel.Lossy.readRelations t with
-    | .ok rs => .ok (.ext (Rel.Lossy.showRelations rs))
-    | .error e => .error e.toList
-  canon := fun v => ∃ rs, ValidRWs rs ∧ v = .ext (Rel.Lossy.showRelations rs)
-
-/-- `debversion::Version`: `FromStr` then `Display`.  The model has no error text (`Option`); the text
-    given here is the crate's for a regex mismatch (an epoch above `u32` has another one) and is not
-    part of any claim. -/
-def versionCodec : LeafCodec where
-  ser := extCodec.ser
-  de := fun t =>
-    match Version.parse t with
-    | some v => .ok (.ext v.display)
-    | none => .error (c!"Invalid version string: " ++ t)
-  canon := fun v => ∃ x, Version.parse x.display = some x ∧ v = .ext x.display
+/- `Derive.relationsCodec`, `Derive.versionCodec` are defined in Model/DeriveCodecs.lean (the driver
+   compares the answers of the real codecs with them on every `typed.*` request). -/
 
 /-! ## good text: one line that does not start with a blank -/
 
@@ -161,7 +143,14 @@ theorem C20_ext_relations_ok : CodecOK relationsCodec := by
 /-- what the codec returns is one of its canonical values -/
 theorem C20_ext_relations_canon (t : Str) (y : Val) (h : relationsCodec.de t = .ok y) : relationsCodec.canon y := by
   obtain ⟨rs, hr, rfl⟩ := relationsCodec_de_ok t y h
-  exact ⟨rs, readRelations_range hr, rfl⟩
+  exact ⟨rs, readRelations_reprint hr, rfl⟩
+
+/-- the canonical values of the codec are exactly the printed texts of the values in the range -/
+theorem C20_ext_relations_canon_iff (v : Val) :
+    relationsCodec.canon v ↔ ∃ rs, ValidRWs rs ∧ v = .ext (Rel.Lossy.showRelations rs) := by
+  constructor
+  · rintro ⟨rs, h, rfl⟩; exact ⟨rs, readRelations_range h, rfl⟩
+  · rintro ⟨rs, h, rfl⟩; exact ⟨rs, readRelations_show rs h, rfl⟩
 
 /-! ## `debversion::Version` -/
 
@@ -210,6 +199,17 @@ theorem C20_ext_version_faithful (v w : Version) (hv : Version.parse v.display =
     (hw : Version.parse w.display = some w) (e : v.display = w.display) : v = w := by
   rw [e, hw] at hv
   exact (Option.some.inj hv).symm
+
+/-- the two codecs in the form of the leaf-codec lemmas of C16 (`KindOK (.modelled c)`): a canonical
+    value is read back from its serialisation -/
+theorem C20_ext_kindOK : C16.KindOK (.modelled relationsCodec) ∧ C16.KindOK (.modelled versionCodec) := by
+  refine ⟨?_, ?_⟩
+  · rintro v ⟨rs, h, rfl⟩
+    show relationsCodec.de (Rel.Lossy.showRelations rs) = _
+    simp only [relationsCodec, h]
+  · rintro v ⟨x, h, rfl⟩
+    show versionCodec.de x.display = _
+    simp only [versionCodec, h]
 
 /-! ## three assumed codecs instead of five -/
 
@@ -285,5 +285,122 @@ theorem C20_roundtrip_repos_shipped_rv (E : ExtCodecs) (hrv : ModelledRV E) (h3 
     (hSigned : ∀ r ∈ l, ∀ e ∈ paraOf R r, e.1 = c!"Signed-By" → GoodText e.2) :
     TypedDoc.parse (.repos R) (TypedDoc.print (.repos R) (.repos l)) = .ok (.repos l) :=
   C20_roundtrip_repos_shipped E (C20_extOK_of_rv E hrv h3) R hS s l h hSigned
+
+/-! ## witnesses and non-vacuity -/
+
+/-- `a (= :1)` -/
+def exWide : List (List Rel.Lossy.Relation) :=
+  [[⟨['a'], none, none, some (.Equal, ⟨none, [':', '1'], none⟩), []⟩]]
+
+/-- the range of the lossy reader is strictly wider than the domain `ValidRs` of C14: `a (= :1)` is
+    accepted (a version without epoch whose upstream part is `:1`), its value is not `ValidRs`, it is
+    `ValidRWs`, and it prints as the same text -/
+theorem C20_ext_range_wider_than_C14 :
+    Rel.Lossy.readRelations (c!"a (= :1)") = .ok exWide ∧ ¬ ValidRs exWide ∧ ValidRWs exWide
+      ∧ Rel.Lossy.showRelations exWide = c!"a (= :1)" := by decide +kernel
+
+/-- the realistic value of `Props/C14.exRs` is in the range, and the codec returns its text unchanged -/
+example : ValidRWs C14.exRs := by decide +kernel
+
+def exDepends : Str := c!"libc6:any (>= 1:2.3~rc1-4) [amd64 !i386] <!nocheck cross> | g++, x (<< 0)"
+
+example : relationsCodec.de exDepends = .ok (.ext exDepends) := by decide +kernel
+example : GoodText exDepends := by decide +kernel
+
+/-- a text in another layout, with an empty entry, a leading-zero epoch and a colon-initial version:
+    accepted, normalised by printing, and the printed text re-reads to the same value -/
+def exMessy : Str := c!"libc6:any(>=01:2.3~rc1-4)[ amd64 !i386 ]<!nocheck  cross>|g++ ,, x (<<\t:0)"
+def exMessyCanon : Str := c!"libc6:any (>= 1:2.3~rc1-4) [amd64 !i386] <!nocheck cross> | g++, x (<< :0)"
+
+example : relationsCodec.de exMessy = .ok (.ext exMessyCanon)
+    ∧ relationsCodec.de exMessyCanon = .ok (.ext exMessyCanon) := by decide +kernel
+
+/-- rejected shapes stay rejected (so the codec is not vacuous the other way) -/
+example : (relationsCodec.de (c!"a (= 4294967296:1)")).toBool = false
+    ∧ (relationsCodec.de (c!"a | | b")).toBool = false ∧ (relationsCodec.de (c!"a (= )")).toBool = false := by
+  decide +kernel
+
+/-- the empty list: blank and comma-only texts read as the empty value, which prints the empty text -/
+example : relationsCodec.de (c!" ,, ") = .ok (.ext []) ∧ relationsCodec.de [] = .ok (.ext []) := by decide +kernel
+
+example : versionCodec.de (c!"01:2.3~rc1-4") = .ok (.ext (c!"1:2.3~rc1-4"))
+    ∧ versionCodec.de (c!"0:1") = .ok (.ext (c!"0:1")) ∧ versionCodec.de (c!"1-") = .ok (.ext (c!"1-"))
+    ∧ (versionCodec.de (c!" 1")).toBool = false ∧ (versionCodec.de (c!"4294967296:1")).toBool = false := by
+  decide +kernel
+
+/-! ### the corollaries on concrete documents: relations and versions by the modelled codecs, the three
+    remaining external codecs instantiated by the identity codec -/
+
+def E1 : ExtCodecs := extRV extCodec extCodec extCodec
+theorem E1_rv : ModelledRV E1 := modelledRV_extRV _ _ _
+theorem E1_ok3 : ExtOK3 E1 := ⟨ext_codecOK, ext_codecOK, ext_codecOK⟩
+
+def spec1 (id : Str) : Spec := ((rowOf id).bind (specOfRowE E1)).getD []
+
+theorem shipped1 (id : Str) (h : ((rowOf id).bind (specOfRowE E1)).isSome = true) : Shipped E1 id (spec1 id) := by
+  unfold spec1
+  cases hr : rowOf id with
+  | none => simp [hr] at h
+  | some r =>
+    simp only [hr, Option.bind_some] at h ⊢
+    cases hs : specOfRowE E1 r with
+    | none => simp [hs] at h
+    | some sp => exact ⟨r, hr, by simp [hs]⟩
+
+def controlDoc : Str :=
+  c!"Source: foo\nBuild-Depends: debhelper-compat (= 13), g++ [amd64] <!nocheck>\nStandards-Version: 4.6.2\n\nPackage: foo\nArchitecture: any\nDepends: libc6:any (>= 1:2.3~rc1-4) [amd64 !i386] <!nocheck cross> | g++, x (<< 0)\nRecommends: libc6:any(>=01:2.3~rc1-4)[ amd64 !i386 ]<!nocheck  cross>|g++ ,, x (<< :0)\nDescription: x\n"
+
+abbrev controlKind : DocKind := .control (spec1 (c!"control.Source")) (spec1 (c!"control.Binary"))
+
+def controlSrc : SV := match TypedDoc.parse controlKind controlDoc with | .ok (.control s _) => s | _ => []
+def controlBins : List SV := match TypedDoc.parse controlKind controlDoc with | .ok (.control _ b) => b | _ => []
+
+theorem controlDoc_parses : TypedDoc.parse controlKind controlDoc = .ok (.control controlSrc controlBins) := by
+  decide +kernel
+
+def controlPrinted : Str :=
+  c!"Source: foo\nBuild-Depends: debhelper-compat (= 13), g++ [amd64] <!nocheck>\nStandards-Version: 4.6.2\n\nPackage: foo\nDepends: libc6:any (>= 1:2.3~rc1-4) [amd64 !i386] <!nocheck cross> | g++, x (<< 0)\nRecommends: libc6:any (>= 1:2.3~rc1-4) [amd64 !i386] <!nocheck cross> | g++, x (<< :0)\nArchitecture: any\nDescription: x\n"
+
+/-- the control file is accepted with one binary paragraph; its value is read back from its printed
+    form, in which the `Recommends` field is normalised (fields in declaration order) -/
+example : controlBins.length = 1
+    ∧ TypedDoc.print controlKind (.control controlSrc controlBins) = controlPrinted
+    ∧ TypedDoc.parse controlKind (TypedDoc.print controlKind (.control controlSrc controlBins))
+        = .ok (.control controlSrc controlBins) := by
+  refine ⟨by decide +kernel, by decide +kernel, ?_⟩
+  have hv : ∀ fx ∈ (spec1 (c!"control.Source")).zip controlSrc, fx.1.key = c!"Vcs-Git" → fx.2 = none := by
+    decide +kernel
+  exact C20_roundtrip_control_shipped_rv E1 E1_rv E1_ok3 _ _ (shipped1 _ (by decide +kernel))
+    (shipped1 _ (by decide +kernel)) controlDoc _ _ controlDoc_parses
+    (fun fx hfx hk y hy => by rw [hv fx hfx hk] at hy; cases hy) (by decide +kernel)
+
+def buildinfoDoc : Str :=
+  c!"Format: 1.0\nBuild-Architecture: amd64\nSource: s\nArchitecture: all\nVersion: 01:1.0-1\nInstalled-Build-Depends: gcc (= 4:12.2.0-3),\n libc6 (>= 2.36)\n"
+
+abbrev buildinfoKind : DocKind := .losslessPara (spec1 (c!"buildinfo.Buildinfo"))
+
+def buildinfoVal : SV := match TypedDoc.parse buildinfoKind buildinfoDoc with | .ok (.single v) => v | _ => []
+
+theorem buildinfoDoc_parses : TypedDoc.parse buildinfoKind buildinfoDoc = .ok (.single buildinfoVal) := by
+  decide +kernel
+
+/-- a .buildinfo with a leading-zero epoch and a two-line dependency list: accepted; printed with the
+    version and the list normalised; the value is read back from the printed form -/
+example : TypedDoc.print buildinfoKind (.single buildinfoVal)
+      = c!"Format: 1.0\nBuild-Architecture: amd64\nSource: s\nArchitecture: all\nVersion: 1:1.0-1\nInstalled-Build-Depends: gcc (= 4:12.2.0-3), libc6 (>= 2.36)\n"
+    ∧ TypedDoc.parse buildinfoKind (TypedDoc.print buildinfoKind (.single buildinfoVal)) = .ok (.single buildinfoVal) :=
+  ⟨by decide +kernel, C20_roundtrip_buildinfo_shipped_rv E1 E1_rv E1_ok3 _ (shipped1 _ (by decide +kernel))
+    buildinfoDoc _ buildinfoDoc_parses (by decide +kernel)⟩
+
+/-- the other four kinds have a shipped spec with the modelled codecs as well (the hypotheses
+    `Shipped E1 …` of their `_rv` theorems are met) -/
+example : Shipped E1 (c!"ftpmaster.Removal") (spec1 (c!"ftpmaster.Removal"))
+    ∧ Shipped E1 (c!"dep3.PatchHeader") (spec1 (c!"dep3.PatchHeader"))
+    ∧ Shipped E1 (c!"aptsources.Repository") (spec1 (c!"aptsources.Repository"))
+    ∧ Shipped E1 (c!"debiancopyright.Header") (spec1 (c!"debiancopyright.Header"))
+    ∧ Shipped E1 (c!"debiancopyright.FilesParagraph") (spec1 (c!"debiancopyright.FilesParagraph"))
+    ∧ Shipped E1 (c!"debiancopyright.LicenseParagraph") (spec1 (c!"debiancopyright.LicenseParagraph")) :=
+  ⟨shipped1 _ (by decide +kernel), shipped1 _ (by decide +kernel), shipped1 _ (by decide +kernel),
+   shipped1 _ (by decide +kernel), shipped1 _ (by decide +kernel), shipped1 _ (by decide +kernel)⟩
 
 end Deb822Verif.Props.C20Ext
